@@ -68,24 +68,61 @@ class TlcResult:
         return res
 
     def tuples(self, head):
-        """Lines printed as  <<"HEAD", a, b, ...>>  ->  list of field lists (ints / strings)."""
+        """Values printed as  <<"HEAD", a, b, ...>>  ->  list of field lists (ints / strings).
+        TLC's pretty-printer wraps long tuples over several lines (at about 80 columns): a tuple is read from its opening << to the matching >>,
+        across line breaks (a wrapped REJ line that is not recognised would read as an accepted trace)."""
         res = []
-        for line in self.out.splitlines():
-            line = line.strip()
-            if line.startswith('<<"' + head + '"'):
-                body = line[2:-2]
-                fields = [f.strip() for f in _split_top(body)]
-                vals = []
-                for f in fields[1:]:
-                    if f.startswith('"'):
-                        vals.append(json.loads(f))
-                    elif re.fullmatch(r"-?\d+", f):
-                        vals.append(int(f))
-                    elif f in ("TRUE", "FALSE"):
-                        vals.append(f == "TRUE")
-                    else:
-                        vals.append(f)
-                res.append(vals)
+        out = self.out
+        pat = re.compile(r'<<\s*"' + re.escape(head) + '"')
+        pos = 0
+        while True:
+            m = pat.search(out, pos)
+            if not m:
+                break
+            i = m.start()
+            # only at the beginning of a line (a tuple printed by PrintT), not inside another value
+            bol = out.rfind("\n", 0, i) + 1
+            if out[bol:i].strip():
+                pos = i + 1
+                continue
+            j, depth, instr = i, 0, False
+            end = -1
+            while j < len(out):
+                c = out[j]
+                if instr:
+                    if c == "\\":
+                        j += 1
+                    elif c == '"':
+                        instr = False
+                elif c == '"':
+                    instr = True
+                elif out.startswith("<<", j):
+                    depth += 1
+                    j += 1
+                elif out.startswith(">>", j):
+                    depth -= 1
+                    j += 1
+                    if depth == 0:
+                        end = j + 1
+                        break
+                j += 1
+            if end < 0:
+                break
+            text = " ".join(x.strip() for x in out[i:end].splitlines())
+            body = text[2:-2]
+            fields = [f.strip() for f in _split_top(body)]
+            vals = []
+            for f in fields[1:]:
+                if f.startswith('"'):
+                    vals.append(json.loads(f))
+                elif re.fullmatch(r"-?\d+", f):
+                    vals.append(int(f))
+                elif f in ("TRUE", "FALSE"):
+                    vals.append(f == "TRUE")
+                else:
+                    vals.append(f)
+            res.append(vals)
+            pos = end
         return res
 
 
